@@ -31,6 +31,8 @@ pub struct Store {
     pub fail_base: u64,
     /// every write fails while set
     pub fail_all: bool,
+    /// the next `fail_reads` reads of a pack fail (a transient read error of the backend)
+    pub fail_reads: usize,
     pub list_seed: Option<u64>,
     /// bumps on every mutation of the item set (cache key for the projection)
     pub version: u64,
@@ -45,6 +47,7 @@ impl Store {
             fail_at: vec![],
             fail_base: 0,
             fail_all: false,
+            fail_reads: 0,
             list_seed: None,
             version: 0,
         }
@@ -120,7 +123,11 @@ impl Adapter for VerifAdapter {
     }
 
     fn read_object(&self, key: &str, offset: usize, length: usize) -> Result<Vec<u8>> {
-        let s = self.store.lock().unwrap();
+        let mut s = self.store.lock().unwrap();
+        if s.fail_reads > 0 && key.ends_with(".pack") {
+            s.fail_reads -= 1;
+            return Err(anyhow!("injected_read_failure"));
+        }
         match &s.backing {
             Backing::Own(m) => {
                 let data = m.get(key).ok_or_else(|| anyhow!("object not found: {}", key))?;
